@@ -92,11 +92,21 @@ for k in range(lanes):
     sh(f"git -C /repo worktree remove --force {BASE}/L{k}/r; rm -rf {BASE}/L{k}")
 sh("git -C /repo worktree prune")
 missed = sum(1 for n in names if rows.get(n, (0, 0, "ERROR"))[2] != "CAUGHT")
-if not args:
-    with open("/verif/seeded/SUMMARY.md", "w") as f:
-        f.write("| seeded change | property | quick check verdict | violation classes reported |\n|---|---|---|---|\n")
-        for n in names:
-            r = rows.get(n, (n, "?", "ERROR", "", 0))
-            f.write(f"| {r[0]} | {r[1]} | {r[2]} | {r[3]} |\n")
+# SUMMARY.md: rows of the changes run now replace their old rows, the others are kept
+table = {}
+try:
+    for l in open("/verif/seeded/SUMMARY.md"):
+        c = [x.strip() for x in l.strip().strip("|").split("|")]
+        if len(c) == 4 and c[0] not in ("seeded change", "---") and os.path.exists(f"/verif/seeded/{c[0]}/patch.diff"):
+            table[c[0]] = c
+except OSError:
+    pass
+for n in names:
+    r = rows.get(n, (n, "?", "ERROR", "", 0))
+    table[n] = [r[0], r[1], r[2], r[3]]
+with open("/verif/seeded/SUMMARY.md", "w") as f:
+    f.write("| seeded change | property | quick check verdict | violation classes reported |\n|---|---|---|---|\n")
+    for n in sorted(table):
+        f.write("| " + " | ".join(table[n]) + " |\n")
 print("SENSITIVITY", "OK" if missed == 0 else f"{missed} not caught")
 sys.exit(0 if missed == 0 else 1)
